@@ -106,6 +106,9 @@ def consistent(conj):
   for e, t in conj:
     if t and never_true(e):
       return False
+    if (not t) and isinstance(e, ast.Compare) and len(e.ops) == 1 and isinstance(e.ops[0], ast.IsNot) \
+        and never_true(ast.Compare(left=e.left, ops=[ast.Is()], comparators=e.comparators)):
+      return False        # `x is not <fresh object>` is always true
     k, v = lit_key(e, t)
     if seen.setdefault(k, v) != v:
       return False
